@@ -16,7 +16,9 @@ from pytableaux.proof.common import Branch
 
 def run_case(c):
     s = dec_sent(c['s'])
-    tab = Tableau(c['logic'])
+    # the verdict on a literal set may not depend on the search options: they rotate with the case number
+    k = (c['id'] // 2) % 4
+    tab = Tableau(c['logic'], is_group_optim=k not in (1, 3), is_rank_optim=k not in (2, 3))
     # two documented ways to put a branch on a tableau: create it there and append, or fill it first and add it
     prefilled = c['id'] % 2 == 1
     b = Branch() if prefilled else tab.branch()
